@@ -223,6 +223,32 @@ func (w *dtWalker) walk(st *dtState, b *ssa.BasicBlock, pred *ssa.BasicBlock) {
 			w.walk(st, b.Succs[0], b)
 			return
 		case *ssa.Return:
+			// a boolean result that is an expression over keyed values (`return !(a && b)`): decide it like a branch
+			if len(x.Results) == 1 {
+				if bt, ok := x.Results[0].Type().Underlying().(*types.Basic); ok && bt.Kind() == types.Bool {
+					if _, isC := w.constOfVal(st, x.Results[0]); !isC {
+						res, lit, kind, cval := w.evalCond(st, x.Results[0])
+						switch res {
+						case "true", "false":
+							st.path.Returns = append(st.path.Returns, res)
+							w.finish(st)
+							return
+						case "fork", "forkneg":
+							for _, truth := range []bool{true, false} {
+								n := st.clone()
+								w.assume(n, lit, kind, cval, truth)
+								val := truth
+								if res == "forkneg" {
+									val = !truth
+								}
+								n.path.Returns = append(n.path.Returns, fmt.Sprint(val))
+								w.finish(n)
+							}
+							return
+						}
+					}
+				}
+			}
 			for _, rv := range x.Results {
 				st.path.Returns = append(st.path.Returns, w.describeRet(st, rv))
 			}
